@@ -19,13 +19,14 @@ class Check:
 
     # status: HOLDS | VIOLATION | BLIND
     def ob(self, rule, anchor, ok, detail="", where=None, key=None):
+        anchor = anchor + getattr(self, "ctx", "")
         self.obs.append({"rule": rule, "anchor": anchor, "status": "HOLDS" if ok else "VIOLATION",
                          "detail": detail, "where": where, "key": key if key is not None else detail})
         return ok
 
     def blind(self, rule, anchor, why, where=None):
         """the checker cannot see / decide something it decided on the confirmed tree: fail closed"""
-        self.obs.append({"rule": rule, "anchor": anchor, "status": "BLIND", "detail": why, "where": where, "key": why})
+        self.obs.append({"rule": rule, "anchor": anchor + getattr(self, "ctx", ""), "status": "BLIND", "detail": why, "where": where, "key": why})
 
     def floor(self, name, count, minimum):
         """vacuity guard: instance count must not fall below what was counted by hand"""
@@ -98,7 +99,8 @@ class Check:
 
 
 def finding_key(prop, o):
-    return "%s|%s|%s|%s" % (prop, o["rule"], o["anchor"], o["key"])
+    anchor = o["anchor"].split(" [cfg=")[0]       # a finding is the same construct in every analysed configuration
+    return "%s|%s|%s|%s" % (prop, o["rule"], anchor, o["key"])
 
 
 def load_known():
